@@ -937,3 +937,98 @@ def c16_r13(ctx):
             ok = len(top) == 1
             detail = "loop body: %s" % [norm.stmt_text(s)[:60] for s in lp.body]
     ctx.ob(f, ok, "every sub-node is handed the field name (the decision to take it is the sub-node's)", detail=detail)
+
+
+FLAT_FILTERS_OK = {
+    "qparser.plugins.GroupPlugin.do_groups": "builds the nesting out of the flat bracket tokens; there are no sub-groups before it has run",
+}
+
+
+@rule("C16", "R14", "K9", "every plugin filter treats nested groups like the top-level group",
+      min_instances=10,
+      clause="Sibling agreement over the filter methods of the parser plugins (do_*): every one of them that walks the nodes of the group "
+             "it is given reaches the nodes of nested groups too -- it calls itself (directly or through a helper method of the class) "
+             "for GroupNode children. A filter that consumes its marker nodes only at the top level leaves markers inside parentheses; "
+             "MarkerNode.query() then raises NotImplementedError out of QueryParser.parse().")
+def c16_r14(ctx):
+    prog = ctx.prog
+    n = 0
+    for K in sorted(prog.classes.values(), key=lambda k: k.qualname):
+        if not K.module.name.startswith("whoosh.qparser"):
+            continue
+        for name, f in sorted(K.methods.items()):
+            if not name.startswith("do_"):
+                continue
+            walks = any(isinstance(x, ast.For) for x in ast.walk(f.node))
+            if not walks:
+                continue
+            n += 1
+            ctx.saw(f)
+            # methods of the class reachable through self-calls
+            seen = set()
+            work = [f]
+            rec = False
+            while work:
+                g = work.pop()
+                for c in norm.calls_in(g.node):
+                    if isinstance(c.func, ast.Attribute) and isinstance(c.func.value, ast.Name) and c.func.value.id == "self":
+                        if c.func.attr == name:
+                            rec = True
+                        h = prog.lookup(K, c.func.attr)
+                        if h is not None and h.qualname not in seen and h is not f:
+                            seen.add(h.qualname)
+                            work.append(h)
+            groups = any(isinstance(c.func, ast.Name) and c.func.id == "isinstance" and len(c.args) == 2 and "GroupNode" in norm.canon(c.args[1])
+                         for g in [f] + [prog.functions[q] for q in seen if q in prog.functions] for c in norm.calls_in(g.node))
+            ok = (rec and groups) or f.short in FLAT_FILTERS_OK
+            ctx.ob(f, ok, "%s.%s() descends into nested groups" % (K.name, name),
+                   detail=FLAT_FILTERS_OK.get(f.short, "") if ok else "the filter only looks at the nodes of the group it is given: what it "
+                   "consumes (markers, its own node class) survives inside parentheses")
+    if n < 10:
+        raise AnalysisError("only %d plugin filters found" % n)
+
+
+@rule("C16", "R15", "K7", "a pattern that comes from the query text is compiled inside a handler that turns re.error into QueryError",
+      min_instances=1,
+      clause="In whoosh.query every re.compile()/rcompile() call whose argument is not a constant sits in a try whose handler catches "
+             "re.error (or Exception) and raises QueryError: the text of a regex/wildcard query is typed by the user (RegexPlugin hands "
+             "it over verbatim) and is compiled only when the query is run, so an unterminated '[' would otherwise escape a search as "
+             "re.error.")
+def c16_r15(ctx):
+    prog = ctx.prog
+    n = 0
+    for f in prog.functions.values():
+        if not f.module.name.startswith("whoosh.query"):
+            continue
+        parents = None
+        for c in norm.calls_in(f.node):
+            t = norm.canon(c.func)
+            if t not in ("re.compile", "rcompile", "compile") or not c.args:
+                continue
+            if t == "compile" and "re" not in f.module.imports:
+                continue
+            if prog.fold_str(f.module, c.args[0], f.cls) is not None:
+                continue
+            n += 1
+            ctx.saw(f)
+            if parents is None:
+                parents = {}
+                for p_ in ast.walk(f.node):
+                    for ch in ast.iter_child_nodes(p_):
+                        parents[id(ch)] = p_
+            ok = False
+            x = c
+            while id(x) in parents:
+                par = parents[id(x)]
+                if isinstance(par, ast.Try) and any(x is b or any(x is y for y in ast.walk(b)) for b in par.body):
+                    for h in par.handlers:
+                        ht = norm.canon(h.type) if h.type is not None else "*"
+                        catches = ht in ("*", "Exception", "BaseException") or "error" in ht
+                        raises = any(isinstance(r, ast.Raise) and r.exc is not None and "QueryError" in norm.canon(r.exc) for r in ast.walk(h))
+                        if catches and raises:
+                            ok = True
+                x = par
+            ctx.ob(f, ok, "the pattern is compiled under a handler that raises QueryError",
+                   detail="re.error from `%s` escapes the search" % norm.canon(c) if not ok else "", loc=ctx.nodeloc(f, c))
+    if n < 1:
+        raise AnalysisError("no run-time pattern compilation found in whoosh.query")
